@@ -766,11 +766,17 @@ Lemma copy_sized_good : forall sp n e, good e -> copy_unsafe sp n e = false ->
 Proof.
   intros sp n e Hg Hu. destruct sp; cbn [copy_sized].
   - destruct e as [d|s].
-    + change (sents (to_sparse (ED d))) with (d2s d). unfold copy_unsafe in Hu. cbn [andb is_sparse negb esize abs_e abs_d asize] in Hu.
-      apply Nat.ltb_ge in Hu. split.
-      * cbn [good]. split; [split|]; cbn [sents ssize]; [apply d2s_sorted|apply d2s_bound, Hu|apply d2s_nz].
-      * split; [reflexivity|]. intro j. cbn [abs_e abs_s abs_d acoef sents a_resize]. rewrite d2s_lookup.
-        destruct (j <? n)%nat eqn:E; [reflexivity|]. apply Nat.ltb_ge in E. apply nth_overflow. lia.
+    + change (sents (to_sparse (ED d))) with (d2s d). split.
+      * cbn [good]. split; [split|]; cbn [sents ssize].
+        -- apply sorted_filter, d2s_sorted.
+        -- apply Forall_forall. intros b Hb'. apply filter_In in Hb'. destruct Hb' as [_ Hb'].
+           apply Nat.ltb_lt in Hb'. lia.
+        -- apply Forall_filter', d2s_nz.
+      * split; [reflexivity|]. intro j. cbn [abs_e abs_s abs_d acoef sents a_resize].
+        rewrite (lookup_filter_key (fun k => (k <? Nat.min (length d) n)%nat)). rewrite d2s_lookup.
+        destruct (j <? Nat.min (length d) n)%nat eqn:E1, (j <? n)%nat eqn:E2; try reflexivity.
+        -- apply Nat.ltb_lt in E1. apply Nat.ltb_ge in E2. lia.
+        -- apply Nat.ltb_ge in E1. apply Nat.ltb_lt in E2. symmetry. apply nth_overflow. lia.
     + destruct Hg as [[Hs Hb] Hnz]. split.
       * cbn [good]. split; [split|]; cbn [sents ssize].
         -- apply sorted_filter, Hs.
